@@ -4,11 +4,13 @@ CONSTANTS
   K = 1
   M = 1
   Variant = "coalesce_acts"
+  Direct = FALSE
   GenHist = FALSE
 INVARIANT C07_LimitsAtShutdown
 INVARIANT C07_NotRemovedEarly
 INVARIANT C07_NotCompressedEarly
 INVARIANT C07_OriginalUntilFinished
+INVARIANT C07_CurrentSafe
 PROPERTY C07_ShutdownReturns
 VIEW View
 CHECK_DEADLOCK FALSE
